@@ -88,6 +88,49 @@ CHECKS = {
         'one-step removal. Exhaustive within the bounds.',
         'Trusted: the classifier in checks/c04.py (conservative: ambiguous damage is excluded), the mark offsets of mc/model/cssast.py for "complete before the cut".',
     ),
+    'C16': (
+        'exploration',
+        'deviation-bounded exhaustive enumeration of selectors generated from a bounded CSS3 selector grammar in all spellings with <=k site deviations, against by-construction specificity; explicit-state search over selector-list operations',
+        'DESIGN.md 3/C16',
+        'All compounds of an optional type/universal selector plus <=2 (quick) / <=3 (thorough) of 53 abstract simple selectors, and all 2- (3-) compound '
+        'selectors over a 40-compound core x 4 combinators, are rendered in every spelling with <=1 (<=2) deviations (white space, comments, case of '
+        ':not and pseudo names, escapes, quote style) and parsed stand-alone and attached to sheets with/without default namespace; specificity must '
+        'equal the by-construction reference and be invariant, the serialisation must reparse to the same item sequence and be a fixpoint. Selector '
+        'lists: BFS over append / item assignment / selectorText on free and owned lists, raising and log-only mode, closure under <=3 (<=4) entries.',
+        'Trusted: mc/model/ref_specificity.py; pseudo-classes count 0 (the statement lists class and attribute selectors only).',
+    ),
+    'C17': (
+        'model_checking',
+        'explicit-state search over media-list operations on the real MediaList (stand-alone, @media- and @import-owned) in lock-step with an ordered-set reference model; exhaustive enumeration of generated media queries and type lists',
+        'DESIGN.md 3/C17',
+        'BFS over appendMedium / deleteMedium / item assignment at every index / mediaText / rule.media assignment over a 10-medium alphabet (case '
+        'variants, queries, invalid members) from two seeds per owner kind, closure under <=3 (quick) / <=4 (thorough) entries, raising mode; after '
+        'every transition accept/reject, content, item(i), length, iteration, reparse of mediaText, wellformed flag, owner rule text and the parser hand-back '
+        'buffers are compared with the reference. All type lists <=3/4 over 12 symbols; all generated queries ({-,not,only} x type x <=2 features) in '
+        'every 1-deviation spelling; 25 malformed members x position x neighbours.',
+        'Trusted: mc/model/ref_medialist.py (ordered set with "all" absorption, written from the statement). A bare IndexError from item assignment with a bad index is pinned by the repository tests and not judged.',
+    ),
+    'C18': (
+        'exploration',
+        'exhaustive products of decimal literals x units x preferences, colour forms, string/URL contents over an 18-character alphabet, separator assignments, against exact-Fraction / CSS3-colour / escape-resolution references',
+        'DESIGN.md 3/C18',
+        'Every literal sign x 9 integer parts x all fraction strings <=3 (quick) / <=4 (thorough) digits (plus lengths 5-6 over {0,1,5,9}) x 8 units x '
+        'omitLeadingZero; all 4096 #rgb, all doubled #rrggbb and their neighbours, {0,1,8,a,F}^6, all 148 keywords, rgb()/hsl() argument products x '
+        'minimizeColorHash; every string <=3 characters over 18 characters as string and url() content in every quoting form; all <=3-component values '
+        'with every separator assignment. Each is parsed as PropertyValue and inside a sheet, serialised under each preference setting and reparsed; '
+        'value, unit, channels, content and separator sequence are compared with the references. Exhaustive within the bounds.',
+        'Trusted: mc/model/ref_number.py (Fraction arithmetic, CSS3 colour table typed from the specification), mc/model/ref_value.py; accessors may hand out content or its backslash-escaped spelling.',
+    ),
+    'C20': (
+        'exploration',
+        'complete configuration table (media type x response stub x transport charset x BOM x XML declaration spelling x meta x str/bytes) and exhaustive sniffer inputs, against a reference decision procedure written from the encutils docstrings and RFC 3023',
+        'DESIGN.md 3/C20',
+        'The full cross product of 9 media-type classes, 3 response stubs, 3 transport charsets, 6 BOMs, 43 XML declaration spellings, 5 meta variants and '
+        'str/bytes documents (131 580 rows quick) goes through the real getEncodingInfo and is compared with the reference (encoding, mismatch, the three '
+        'source encodings, lower-casing); detectXMLEncoding is run on every byte string <=4 over 8 byte classes as str/bytes/StringIO/BytesIO from every stream '
+        'position (tell() unchanged) and on 6 BOMs x 2304 declaration spellings; getMetaInfo, encodingByMediaType, tryEncodings tables. Exhaustive.',
+        'Trusted: mc/model/ref_encutils.py. Documents shorter than 4 bytes are a listed known finding (pinned by a repository test).',
+    ),
 }
 
 PENDING = {}
